@@ -425,3 +425,64 @@ def target_dependence_case(kind: str, seed: int) -> dict:
     atoms = {"SameStateAndKeyGiveTheSameUpdate": bool(diff(a, a2) == 0.0),
              "TrainingInsideIterationBootstrapsFromTheTargetNetworkOfTheState": bool(diff(a, b) > 1e-6)}
     return dict(ev="identity", kind=f"target_dependence:{kind}", atoms=atoms, approx_kl=0.0)
+
+
+# ------------------------------------------------------------------------------------------------ evaluation helper: independent episodes
+class Lottery(AbstractEnv):
+    """One-step episodes whose return names the start state: s ~ uniform{0, 1, 2}, reward 64**s, then terminal.  The mean over E <= 63
+    episodes decodes into how many episodes started in each state."""
+    name: ClassVar[str] = "Lottery"
+    action_space: Discrete
+    observation_space: Box
+
+    def __init__(self):
+        self.action_space = Discrete(NA)
+        self.observation_space = Box(0.0, float(NS), shape=())
+
+    def initial(self, *, key):
+        return _CS(jr.randint(key, (), 0, 3), jnp.asarray(0, dtype=jnp.int32))
+
+    def action_mask(self, state, *, key):
+        return None
+
+    def transition(self, state, action, *, key):
+        return _CS(state.s, state.t + 1)
+
+    def observation(self, state, *, key):
+        return state.s.astype(jnp.float32)
+
+    def reward(self, state, action, next_state, *, key):
+        return jnp.asarray(64.0) ** state.s.astype(jnp.float32)
+
+    def terminal(self, state, *, key):
+        return state.t >= 1
+
+    def truncate(self, state):
+        return jnp.asarray(False)
+
+    def state_info(self, state):
+        return {}
+
+    def transition_info(self, state, action, next_state):
+        return {}
+
+    def default_renderer(self):
+        raise NotImplementedError
+
+    def render(self, state, renderer):
+        raise NotImplementedError
+
+
+def independent_episodes_case(E: int, cap, deterministic: bool, seed: int) -> dict:
+    """average_reward over E one-step lottery episodes: E * mean = c0 + 64 c1 + 4096 c2 decodes the start states of the E episodes;
+    they must be E draws (c0 + c1 + c2 = E) and not E copies of one draw (3**(1-E) under independence)."""
+    from lerax.benchmark import average_reward
+    env = Lottery()
+    policy = StatefulMaskedPolicy(env, jr.key(3), False)
+    f = eqx.filter_jit(lambda e, p, k: average_reward(e, p, num_episodes=E, max_steps=cap, deterministic=deterministic, key=k))
+    tot = int(round(float(f(env, policy, jr.key(seed))) * E))
+    c2, r = divmod(tot, 4096)
+    c1, c0 = divmod(r, 64)
+    atoms = {"ReturnIsTheMeanOverTheRequestedNumberOfEpisodes": bool(c0 + c1 + c2 == E),
+             "EpisodesAreIndependentDrawsNotCopiesOfOne": bool(max(c0, c1, c2) < E)}
+    return {"atoms": atoms, "meta": {"episodes": E, "max_steps": cap, "deterministic": deterministic, "starts_decoded": [c0, c1, c2]}}
